@@ -139,7 +139,10 @@ func (x *Duration) Sub(a0 time.Duration) time.Duration { simrt.Yield(); return x
 
 func (x *Duration) Swap(a0 time.Duration) time.Duration { simrt.Yield(); return x.Duration.Swap(a0) }
 
-func (x *Duration) CAS(a0 time.Duration, a1 time.Duration) bool { simrt.Yield(); return x.Duration.CAS(a0, a1) }
+func (x *Duration) CAS(a0 time.Duration, a1 time.Duration) bool {
+	simrt.Yield()
+	return x.Duration.CAS(a0, a1)
+}
 
 type String struct{ real.String }
 
